@@ -1229,6 +1229,20 @@ fn signature__structural_tampering_is_rejected() {
             n += 1;
         }
     }
+    // a master key restored from a backup does not accept the keys issued after the backup was taken (same signing key and
+    // tracers, identifier not in its registry), and is not modified by the attempt
+    {
+        let saved = msk.serialize().unwrap().to_vec();
+        let late = cc.generate_user_secret_key(&mut msk, &ap("DPT::HR")).unwrap();
+        for keep in [true, false] {
+            let mut old_msk = MasterSecretKey::deserialize(&saved).unwrap();
+            let mut k = late.clone();
+            let r = cc.refresh_usk(&mut old_msk, &mut k, keep);
+            vchk!(r.is_err(), "C08/C17: a key issued after the master key was saved is refreshed by the restored master key, which never issued it (keep = {keep})");
+            vchk!(k == late && old_msk.serialize().unwrap().to_vec() == saved, "C08/C10: a refused refresh (identifier unknown to the restored master key) modified the user key or the master key");
+            n += 1;
+        }
+    }
     // issued keys are accepted
     for keep in [true, false] {
         let mut a = k1.clone();
